@@ -54,8 +54,9 @@ def _violations_from_report(ex, rep):
         if node not in pth:
             return
         seq = [reqs[i - 1] for i in pth[node]] + tail
-        if key not in best or len(seq) < len(best[key]["replay"]["requests"]):
-            best[key] = {"key": key, "what": what,
+        rank = (len(seq), json.dumps(seq, sort_keys=True))
+        if key not in best or rank < best[key]["rank"]:
+            best[key] = {"key": key, "what": what, "rank": rank,
                          "replay": {"kind": "tracker-seq", "cfg": ex["cfg"], "requests": seq}}
 
     for node, ri, ok, err, chg in rep["move_bad"]:
@@ -72,7 +73,7 @@ def _violations_from_report(ex, rep):
                  "C13c: after the refused %s (%s) a correct %s %s" % (
                      q["op"], ",".join(trk.deviations(q)) or "-", r["op"],
                      "panics" if ok == 2 else "is refused with " + trk.ERR[err]))
-    return list(best.values())
+    return [{k: v for k, v in b.items() if k != "rank"} for b in best.values()]
 
 
 def _violations_from_trace(cfg, steps_file, rep):
@@ -127,7 +128,7 @@ def run(pid, tier):
     # ---- leg B: implementation state graphs
     tot_states = tot_trans = tot_obs = 0
     for name, cfg, maxdev in runs(tier):
-        ex = trk.extract(binpath, name, cfg, maxdev)
+        ex = trk.extract(binpath, name, cfg, maxdev, max_states=4000 if quick else 12000)
         # one TLC run: the report (conformance, violating edges/probes) is computed at start-up, then TLC
         # walks the whole product graph x monitors with C13a/b/c as invariants (-continue: an invariant
         # failure does not stop the walk, so the product is always measured completely)
@@ -145,6 +146,7 @@ def run(pid, tier):
             "impl_states": rep["nodes"], "impl_states_expanded": rep["expanded"], "impl_edges": rep["edges"],
             "accepted_edges": rep["accepted"], "refused_edges": rep["refused"], "probes_after_refusal": rep["probes"],
             "product_states": r["distinct"], "product_transitions": r["states"],
+            "state_budget_exhausted": bool(ex["stats"].get("capped")),
             "spec_divergences": ndiv, "move_bad": len(rep["move_bad"]), "frame_bad": len(rep["frame_bad"]),
             "later_bad": len(rep["later_bad"]), "invariants_violated": sorted(set(ri["violated"])),
             "wall_s": round(ex["wall_s"] + ri["wall_s"], 1)}
@@ -204,7 +206,7 @@ def run(pid, tier):
         "transitions": max(1, tot_trans + a_head["states"] + a_fix["states"]),
         "traces_validated_against_impl": tot_obs,
         "samples": samples or [{"note": "none"}],
-        "exhaustive": True,
+        "exhaustive": not any(v.get("state_budget_exhausted") for v in cov["legs"].values()),
         "spec_divergences": divergences[:40],
         "switches": trk.SWITCHES,
         "finding_keys": sorted({v["key"] for v in violations}),
